@@ -194,6 +194,18 @@ def declare_remote_exec(w):
                           Case("connection-closed", "raise", "OSError", post=nothing_sent)],
                    modifies=REMOD, props=["C06"], allocates=True), variant="function")
 
+    # Gateway.reconfigure: the gateway-wide coercion pair is recorded and announced with channel id 0 (C12)
+    from .channel import M_RECONFIGURE, cfg2u
+
+    def grc_post(a, h, h2, r):
+        cfg = h2.sv("BaseGateway", a.self, "_strconfig")
+        return [cfg.v[0].v == a.py2str_as_py3str, cfg.v[1].v == a.py3str_as_py2str,
+                wire(h2, a.self) == z3.Concat(wire(h, a.self), z3.Unit(frame(z3.IntVal(M_RECONFIGURE), z3.IntVal(0), enc_item(cfg2u(a.py2str_as_py3str, a.py3str_as_py2str)))))]
+
+    w.add(Contract(f"{GW}:Gateway.reconfigure", {"self": REF("Gateway"), "py2str_as_py3str": BOOL, "py3str_as_py2str": BOOL}, defaults={"py2str_as_py3str": True, "py3str_as_py2str": False},
+                   modifies=lambda a, h: [("BaseGateway", a.self, "_strconfig"), ("BaseGateway", a.self, "$wire_out")],
+                   cases=[Case("ok", post=grc_post), Case("cannot-send", "raise", "OSError", post=lambda a, h, h2, e: [wire(h2, a.self) == wire(h, a.self)])], props=["C12"]))
+
     # source is a module: the text that is sent is the CURRENT content of its file, also when an older version of that file was run before.
     # linecache (ghost object LC, one per process): text cached per file name, and whether the cached size/mtime still equal the file's
     s.set_bases("PyModule", ["object"])
